@@ -513,6 +513,9 @@ class Interp:
             if isinstance(fr.env.get(n), Seq):
                 fr.env[n].accumulated = True  # a list only appended to: it holds the generic element(s) afterwards
         assigned = assigned - {n for n in acc if isinstance(fr.env.get(n), Seq)}
+        filled = store_only(st.body, assigned, fr.module)
+        assigned = assigned - {n for n in filled if getattr(fr.env.get(n), "alloc", None) is not None
+                               or getattr(fr.env.get(n), "filled_in_loop", False)}
         self.havoc(fr, assigned, st, "loop")
         self.assign(st.target, elem, fr, st)
         self.loop_depth += 1
@@ -1058,6 +1061,25 @@ def append_only(body, names, module):
                     gp = module.parents.get(par) if par is not None else None
                     if not (isinstance(par, ast.Attribute) and par.attr in ("append", "extend", "add")
                             and isinstance(gp, ast.Call) and gp.func is par):
+                        ok = False
+        if ok and seen:
+            out.add(name)
+    return out
+
+
+def store_only(body, names, module):
+    """names the loop body uses only as the base of element stores  X[...] = value  (an array being filled)"""
+    out = set()
+    for name in names:
+        ok, seen = True, False
+        for st in body:
+            for n in ast.walk(st):
+                if isinstance(n, ast.Name) and n.id == name:
+                    seen = True
+                    par = module.parents.get(n)
+                    gp = module.parents.get(par) if par is not None else None
+                    if not (isinstance(par, ast.Subscript) and par.value is n and isinstance(par.ctx, ast.Store)
+                            and isinstance(gp, ast.Assign)):
                         ok = False
         if ok and seen:
             out.add(name)
